@@ -19,7 +19,8 @@ ASSUMPTIONS = [
     'F1/F2 are agreement/deviance rules: exact about the construct they point at, not proofs of equivalence',
 ]
 MANIFEST = {'text': 'structural necessary conditions: matches() can only return false (disabled), negated or !negated and treats a missing extended header as a failed criterion; '
-                    'every criterion field matched on is serialised and every serialised key is parsed back; the case-insensitive literal matcher exists only under the ignore-case flag.',
+                    'every criterion field matched on is serialised and every serialised key is parsed back; the case-insensitive literal matcher exists only under the ignore-case flag.'
+                    ' Added: no default is substituted for an unspecified criterion; the short JSON form of the message-type criterion is written only for the mask it is reloaded with; scratch buffers of the text front-ends are re-initialised between two ids.',
             'technique': 'static analysis: MIR return-value census, read-set / string-key table agreement, control-dependence (dominating guard) check'}
 
 FILTER = 'adlt::filter::filter_impl::Filter'
